@@ -115,7 +115,7 @@ theorem spliceOut_leaf_effect {Z : Forest} {c : Nat} {t : HTree} (nd : Z.allHand
         rfl
 
 mutual
-  theorem find?_mapAt_self {a : Nat} {G : HTree → HTree} (hG : ∀ k, (G k).handle = k.handle) :
+  theorem fs_find?_mapAt_self {a : Nat} {G : HTree → HTree} (hG : ∀ k, (G k).handle = k.handle) :
       ∀ (t u : HTree), find? a t = some u → find? a (mapAt a G t) = some (G u)
     | .node h v ks, u => by
       intro e
@@ -147,7 +147,7 @@ mutual
         rw [findList?_cons_some hk] at e
         have e' := Option.some.inj e
         subst e'
-        exact findList?_cons_some (find?_mapAt_self hG k w hk)
+        exact findList?_cons_some (fs_find?_mapAt_self hG k w hk)
       | none =>
         rw [findList?_cons_none hk] at e
         have : a ∉ handles k := by
